@@ -175,7 +175,7 @@ func VerifC02_Bed() {
 			if verifWide(name) {
 				return verifByte(name, 0, 255)
 			}
-			return verifByte(name, 1, 9)
+			return verifByte(name, 0, 9) // includes opaque black and zero components
 		}
 		b12.Rgb = color.RGBA{R: comp("r"), G: comp("g"), B: comp("b"), A: 0xff}
 	}
